@@ -21,6 +21,10 @@ pub enum Op {
     ToggleFiring { clause: u8, which: u16 },
     /// lint pool document `doc` in language LANGS[lang]
     Lint { doc: u16, lang: u8 },
+    /// what an editor does when a fix is applied: lint a clause (behind `LEADS[lead]`, so that the
+    /// difference lies 0 / 70 / 140 / 300 characters into the clause), then a copy with one
+    /// same-length edit near its end, then the first text again
+    LintEdited { clause: u8, edit: u8, lead: u8, lang: u8 },
 }
 
 #[derive(Debug, Clone, Serialize, Deserialize, PartialEq, Eq, Hash)]
@@ -57,6 +61,67 @@ pub fn pool(clauses: &[String]) -> Vec<String> {
     }
     if out.is_empty() {
         out.push(String::new());
+    }
+    out
+}
+
+/// comma-free lower-case stretches without a sentence end: the clause that follows stays in one chunk
+pub const LEADS: [&str; 4] = [
+    "",
+    "when the old grey cat that lived behind the barn came back home again ",
+    "when the old grey cat that lived behind the barn came back home again after so many long and quiet winter nights out in the hills we all saw that ",
+    "when the old grey cat that lived behind the barn came back home again after so many long and quiet winter nights out in the hills and when the rain had at last stopped and the river had gone back to where it used to be and the road to the next village was open once more and the first carts came through we all saw that ",
+];
+
+const SWAPS: &[(&str, &str)] = &[("worst", "worse"), ("worse", "worst"), ("then", "than"), ("than", "then"), ("their", "there"), ("there", "their"), ("aloud", "alowd"), ("whole", "whale"), ("want", "went"), ("wide", "wade")];
+
+fn flip_first(w: &str) -> String {
+    let mut cs: Vec<char> = w.chars().collect();
+    if let Some(c) = cs.first_mut() {
+        if c.is_ascii_lowercase() {
+            *c = c.to_ascii_uppercase();
+        } else if c.is_ascii_uppercase() {
+            *c = c.to_ascii_lowercase();
+        }
+    }
+    cs.into_iter().collect()
+}
+
+/// one edit that keeps the length and the token boundaries: a same-length word swapped in, or the
+/// first letter of the last one / two words re-cased
+pub fn edited(text: &str, edit: u8) -> String {
+    if edit % 3 == 1 {
+        let mut best: Option<(usize, &str, &str)> = None;
+        for (a, b) in SWAPS {
+            if let Some(i) = text.rfind(a) {
+                let before_ok = text[..i].chars().next_back().map_or(true, |c| !c.is_alphanumeric());
+                let after_ok = text[i + a.len()..].chars().next().map_or(true, |c| !c.is_alphanumeric());
+                if before_ok && after_ok && best.map_or(true, |(j, _, _)| i > j) {
+                    best = Some((i, a, b));
+                }
+            }
+        }
+        if let Some((i, a, b)) = best {
+            return format!("{}{}{}", &text[..i], b, &text[i + a.len()..]);
+        }
+    }
+    // re-case the last one (edit % 3 == 0 or no swap possible) or two (== 2) ASCII words
+    let mut spans: Vec<(usize, usize)> = vec![];
+    let mut start = None;
+    for (i, c) in text.char_indices() {
+        if c.is_ascii_alphabetic() {
+            start.get_or_insert(i);
+        } else if let Some(s) = start.take() {
+            spans.push((s, i));
+        }
+    }
+    if let Some(s) = start {
+        spans.push((s, text.len()));
+    }
+    let k = if edit % 3 == 2 { 2 } else { 1 };
+    let mut out = text.to_string();
+    for &(a, b) in spans.iter().rev().take(k) {
+        out = format!("{}{}{}", &out[..a], flip_first(&out[a..b]), &out[b..]);
     }
     out
 }
@@ -162,8 +227,23 @@ pub fn test_sequence(c: &SeqCase, ctx: &mut CaseCtx) -> Result<(), String> {
                 cfg_version += 1;
                 toggled_firing = true;
             }
-            Op::Lint { doc, lang } => {
-                let text = &docs[crate::core::pick_idx(*doc, docs.len())];
+            Op::Lint { .. } | Op::LintEdited { .. } => {
+              let (texts, lang): (Vec<String>, &u8) = match op {
+                  Op::Lint { doc, lang } => (vec![docs[crate::core::pick_idx(*doc, docs.len())].clone()], lang),
+                  Op::LintEdited { clause, edit, lead, lang } => {
+                      if c.clauses.is_empty() {
+                          continue;
+                      }
+                      let first = format!("{}{}", LEADS[*lead as usize % LEADS.len()], c.clauses[*clause as usize % c.clauses.len()]);
+                      let second = edited(&first, *edit);
+                      ctx.class("edited_twin");
+                      ctx.class_if(*lead as usize % LEADS.len() >= 2, "edited_twin_differs_after_130_chars");
+                      (vec![first.clone(), second, first], lang)
+                  }
+                  _ => unreachable!(),
+              };
+              let mut fresh_results: Vec<String> = vec![];
+              for text in &texts {
                 let lang_name = LANGS[*lang as usize % LANGS.len()];
                 let Some((document, _)) = make_doc(text, lang_name) else {
                     continue;
@@ -196,6 +276,12 @@ pub fn test_sequence(c: &SeqCase, ctx: &mut CaseCtx) -> Result<(), String> {
                         crate::core::truncate(&render(&fresh), 300)
                     ));
                 }
+                fresh_results.push(format!("{:?}", fresh.iter().map(|l| (l.span, l.message.clone())).collect::<Vec<_>>()));
+              }
+              if fresh_results.len() == 3 && fresh_results[0] != fresh_results[1] {
+                  ctx.class("edited_twin_changes_the_result");
+                  ctx.class_if(texts[0].chars().count() > 140 && texts[0].len() == texts[1].len(), "edited_twin_changes_the_result_after_130_chars");
+              }
             }
         }
     }
@@ -215,6 +301,8 @@ fn clause() -> BoxedStrategy<String> {
         2 => g::word_sentence().prop_map(|s| s.replace('\n', " ")),
         // rules from the end of the alphabetical rule list (positions in packed or truncated digests)
         1 => g::sel_str(LATE_RULE_CLAUSES),
+        // clauses whose lints depend on one word's capitalisation or on one same-length word
+        1 => g::sel_str(&["we went around the united states by train", "she moved to new york last year", "it is worst than before", "this one is better then mine", "we met in south america in may"]),
         1 => g::sel_str(&["--and then it rained", "-- draft --> out.", "---so what", "'s the day", ") an apple", "-ish then"]),
         1 => g::sel_str(&["I could **of** done it", "their *is* an `apple`", "the the _cat_", "an [apple](x) a day", "# teh heading", "he said \"an apple\" <b>teh</b>", "#let x = [teh]", "1. could of"]),
     ]
@@ -229,6 +317,7 @@ pub fn seq_strategy(max_ops: usize) -> BoxedStrategy<SeqCase> {
                 1 => g::config_spec().prop_map(Op::SetConfig),
                 2 => (any::<u8>(), any::<u16>()).prop_map(|(clause, which)| Op::ToggleFiring { clause, which }),
                 6 => (any::<u16>(), 0u8..5).prop_map(|(doc, lang)| Op::Lint { doc, lang }),
+                1 => (any::<u8>(), any::<u8>(), 0u8..4, 0u8..5).prop_map(|(clause, edit, lead, lang)| Op::LintEdited { clause, edit, lead, lang }),
             ],
             1..max_ops,
         ),
@@ -555,6 +644,9 @@ pub fn run(run: &mut Run) {
     run.require_class("op_sequences", "cache_hit_after_config_change", (n / 4) as u64);
     run.require_class("op_sequences", "cache_hit_in_other_language", (n / 4) as u64);
     run.require_class("op_sequences", "firing_rule_toggled_between_hits", (n / 4) as u64);
+    run.require_class("op_sequences", "edited_twin_differs_after_130_chars", (n / 4) as u64);
+    run.require_class("op_sequences", "edited_twin_changes_the_result", (n / 10) as u64);
+    run.require_class("op_sequences", "edited_twin_changes_the_result_after_130_chars", (n / 25) as u64);
 
     let n = run.n(60, 2_000);
     run.prop(
